@@ -667,6 +667,124 @@ theorem C16_gen_defaults :
     1 ≤ Gen.C16.defaultMaxIterations ∧ 3 ≤ Gen.C16.defaultMinAnchors ∧ 0 ≤ Gen.C16.defaultThreshold.1 := by
   decide
 
+/-! ### Structural facts of the source (pass 7): every literal / guard / order of steps the model hard-codes
+
+Each conjunct reads "what the *current* source says = what the hand-written model does".  The right-hand
+sides are the model's choices, cited by definition. -/
+
+/-- `AffineTransformation`: constructor parameter order `(center, rotation, target)` stored with 2/3/2
+dimensions (`Transform.center/rotation/target`); `apply` compares the model count with the number of
+**rotations** by `≠` and raises `IndexError` (`Transform.applyStack`), works on a copy of the input and
+reshapes back (`Transform.apply`); `_reshape_to_3d` accepts exactly 2-d (→ one model) and 3-d input
+(`Coords.single/stack`), anything else is a `ValueError`; `as_matrix` builds 4×4 identities, one per
+rotation (`Transform.asMatrix`, `M4`), in float64; `_multi_matmul` is `(R·Xᵀ)ᵀ` (`multiMatmul`). -/
+theorem C16_gen_transformation :
+    Gen.C16.ctorParams = ["center_translation", "rotation", "target_translation"] ∧
+    Gen.C16.ctorStores = [("center_translation", "center_translation", 2), ("rotation", "rotation", 3),
+                          ("target_translation", "target_translation", 2)] ∧
+    Gen.C16.expandDims = "prepend-axes-while-ndim<n" ∧
+    Gen.C16.applyGuard = ["NotEq", "rotation", "IndexError"] ∧
+    Gen.C16.applyCopiesInput = true ∧ Gen.C16.applyReshapesBack = true ∧
+    Gen.C16.applyInput = ["coord(atoms)", "_reshape_to_3d(mobile_coord)"] ∧
+    Gen.C16.reshapeLadder = ["Lt 2 raise:ValueError", "Eq 2 returncoord[np.newaxis,...]", "Eq 3 returncoord",
+                             "else raise:ValueError"] ∧
+    Gen.C16.matrixSize = 4 ∧ Gen.C16.matrixCount = "self.rotation.shape[0]" ∧ Gen.C16.identityDtype = "float" ∧
+    Gen.C16.multiMatmul = "transpose(matmul(matrices, transpose(vectors,(0,2,1))),(0,2,1))" := by
+  decide
+
+/-- `superimpose(fixed, mobile, atom_mask=None)`: the mask selects along the atom axis of both arrays
+(`selectMask`), the centroids are those of the **filtered** arrays and each array is centred by its own
+centroid (`superimposeTransform`), the rotation is computed from `(fixed centred, mobile centred)` in
+that order; `_get_rotation_matrices(fixed, mobile)` forms `Σ_atoms fixed[a]·mobile[b]` (outer product
+fixed ⊗ mobile summed over the atom axis: `cov1`, `V3.outer`) and hands it unmodified to the SVD
+(`getRotation`); the result is `(transform.apply(mobile), transform)` (`superimposeWith`). -/
+theorem C16_gen_superimpose :
+    Gen.C16.supParams = ["fixed", "mobile", "atom_mask"] ∧ Gen.C16.supDefaults = [("atom_mask", "None")] ∧
+    Gen.C16.supMaskSlice = "[:,atom_mask,:]" ∧
+    Gen.C16.supCentroidOf = ["filtered-fixed", "filtered-mobile"] ∧ Gen.C16.supCentred = ["fixed", "mobile"] ∧
+    Gen.C16.supRotationArgs = ["fixed", "mobile"] ∧ Gen.C16.supReturn = "(transform.apply(mobile),transform)" ∧
+    Gen.C16.rotParams = ["fixed", "mobile"] ∧ Gen.C16.covFactors = ["0@3", "1@2"] ∧ Gen.C16.covAxis = 1 ∧
+    Gen.C16.covDirectlyToSvd = true := by
+  decide
+
+/-- `superimpose_without_outliers`: parameter order, `max_iterations < 1 → ValueError` first
+(`wooGeneric`), `sorted(quantiles)` (`classify`), all atoms of `fixed` are anchors initially
+(`List.range fixed.nAtoms`), `range(max_iterations)` passes (`wooIter` fuel), the inner fit is
+`superimpose(fixed[sel], mobile[sel])` (`wooFit`), squared `distance(fixed[sel], superimposed)` averaged
+over axis 0 when 2-dimensional (`sqDist`, `colMeans`), `np.quantile` with the default (linear) method
+(`quantileSorted`), `ipr = upper − lower`, exits in the order "all" then "min_anchors" (`wooIter`), result
+`(transform.apply(mobile), transform, anchor_indices)` (`superimposeWithoutOutliers`). -/
+theorem C16_gen_outlier_loop :
+    Gen.C16.wooParams = ["fixed", "mobile", "min_anchors", "max_iterations", "quantiles", "outlier_threshold"] ∧
+    Gen.C16.wooFirstGuard = ["max_iterations<1", "ValueError"] ∧ Gen.C16.wooQuantilePrep = "sorted(quantiles)" ∧
+    Gen.C16.wooInitialMask = "np.ones(coord(fixed).shape[-2],dtype=bool)" ∧ Gen.C16.wooLoop = "range(max_iterations)" ∧
+    Gen.C16.wooInnerFit = ["coord(fixed)", "coord(mobile)"] ∧
+    Gen.C16.wooSqDist = ["distance", "coord(fixed)", "superimposed", "**2"] ∧
+    Gen.C16.wooMeanOverModels = ["Eq", "2", "np.mean", "axis=0"] ∧
+    Gen.C16.wooQuantileCall = ["SQ_DIST", "quantiles"] ∧ Gen.C16.wooIprIsSecondMinusFirst = true ∧
+    Gen.C16.wooBreaks = ["all", "min_anchors"] ∧
+    Gen.C16.wooReturn = "(transform.apply(mobile),transform,anchor_indices)" := by
+  decide
+
+/-- `superimpose_homologs` and helpers: signature and defaults; the guards and their exception class in
+the order of `homologInitialAnchors`; fixed anchors come from column 0, mobile anchors from column 1 of
+the matched pairs; `min_anchors` and the keyword arguments are forwarded to the outlier loop
+(`superimposeHomologs`); backbone anchors are `CA` of amino acids and `P` of nucleotides;
+`_find_matching_anchors` offsets column `c` by a counter advanced by the length of the sequence of the
+**same** structure (`0<-0`, `1<-1`: `matchAnchorsFrom`), starting at 0, over a strict zip
+(`findMatchingAnchors` → `ValueError`), keeping positively scoring columns of one optimal alignment
+`align_optimal(fixed_seq, mobile_seq, matrix, gap_penalty, terminal_penalty=…, max_number=1)`. -/
+theorem C16_gen_homologs :
+    Gen.C16.homParams = ["fixed", "mobile", "substitution_matrix", "gap_penalty", "min_anchors", "terminal_penalty", "**kwargs"] ∧
+    Gen.C16.homDefaults = [("substitution_matrix", "None"), ("gap_penalty", "-10"), ("min_anchors", "3"), ("terminal_penalty", "False")] ∧
+    Gen.C16.homGuards = ["Or:len(BACKBONE_fixed) Lt min_anchors,len(BACKBONE_mobile) Lt min_anchors:ValueError",
+                         "len(BACKBONE_fixed) NotEq len(BACKBONE_mobile):ValueError"] ∧
+    Gen.C16.homFallbackTest = ["len(MATCHED)", "Lt", "min_anchors"] ∧
+    Gen.C16.homColumns = [("BACKBONE_fixed", "MATCHED[:,0]"), ("BACKBONE_mobile", "MATCHED[:,1]")] ∧
+    Gen.C16.homWooArgs = ["min_anchors", "**kwargs"] ∧
+    Gen.C16.backboneAtoms = ["filter_amino_acids:CA", "filter_nucleotides:P"] ∧
+    Gen.C16.anchorOffsetIncrements = ["0<-0", "1<-1"] ∧ Gen.C16.anchorOffsetStart = [0, 0] ∧
+    Gen.C16.chainZip = ["strict=True"] ∧ Gen.C16.scoreFilter = ["Gt", "0"] ∧
+    Gen.C16.alignKeywords = ["max_number=1", "terminal_penalty=terminal_penalty"] ∧
+    Gen.C16.alignArgs = ["0", "1", "substitution_matrix", "gap_penalty"] := by
+  decide
+
+/-- `rmsd = sqrt(mean(|subject − reference|², axis=-1))` with a 2-d reference (else `TypeError`);
+`centroid = mean over the atom axis` (`centroid`, `ssd`). -/
+theorem C16_gen_compare :
+    Gen.C16.rmsdExpr = "np.sqrt(np.mean(_sq_euclidian(reference,subject),axis=-1))" ∧
+    Gen.C16.sqEuclidGuard = ["coord(reference).ndim!=2", "TypeError"] ∧
+    Gen.C16.sqEuclidDiff = "coord(subject)-coord(reference)" ∧
+    Gen.C16.centroidExpr = "np.mean(coord(atoms),axis=-2)" := by
+  decide
+
+/-- The default values the harness and the notes assume (a changed default must break this). -/
+theorem C16_gen_default_values :
+    Gen.C16.defaultMinAnchors = 3 ∧ Gen.C16.defaultMaxIterations = 10 ∧
+    Gen.C16.defaultQuantiles = [(1, 4), (3, 4)] ∧ Gen.C16.defaultThreshold = (3, 2) := by
+  decide
+
+/-- The outlier-loop configuration built from the regenerated defaults. -/
+def genDefaultCfg : WooCfg :=
+  let q (p : Int × Nat) : Rat := (p.1 : Rat) / (p.2 : Rat)
+  match Gen.C16.defaultQuantiles with
+  | [a, b] => ⟨Gen.C16.defaultMinAnchors, Gen.C16.defaultMaxIterations, q a, q b, q Gen.C16.defaultThreshold⟩
+  | _ => ⟨0, 0, 0, 0, 0⟩
+
+/-- The general anchor theorem instantiated at the **regenerated** defaults: with the source's own
+default parameters the outlier removal is never refused for its configuration (at least one pass,
+quantiles inside `[0,1]` and ordered), so every default call that returns satisfies
+`C16_anchor_monotone` with `min_anchors = Gen.defaultMinAnchors`. -/
+theorem C16_gen_default_cfg_sound {τ : Type} (fit : List Nat → Except Err τ)
+    (cls : List Nat → τ → Except Err (List Bool)) (n : Nat) :
+    wooGeneric fit cls genDefaultCfg.minAnchors genDefaultCfg.maxIter n
+      = wooIter fit cls Gen.C16.defaultMinAnchors n (Gen.C16.defaultMaxIterations - 1) (List.range n) ∧
+    (0 ≤ genDefaultCfg.qlo ∧ genDefaultCfg.qlo ≤ genDefaultCfg.qhi ∧ genDefaultCfg.qhi ≤ 1 ∧ 0 ≤ genDefaultCfg.thr) := by
+  refine ⟨?_, by decide +kernel⟩
+  have h : ¬ genDefaultCfg.maxIter < 1 := by decide
+  simp only [wooGeneric, h, if_false]
+  rfl
+
 /-! ## Non-vacuity: the hypotheses are met by concrete, non-trivial inputs. -/
 
 /-- a quarter turn about z (integers: `decide` evaluates the model) -/
